@@ -296,6 +296,21 @@ UNITS['U04d'] = dict(
     assumptions=['R10: `arg0: &dyn Data` replaced by a typed view with the same cast_ref_* accessor', 'the stack machine of decode (order of ops, Nullable, PushDataSection, DictLookup, LZ4, Pco, UnpackStrings arms) is not covered'],
     not_covered=['column::decode control structure (section stack), string / compression arms, `UnhexpackStrings => todo!()`'])
 
+UNITS['U22k'] = dict(
+    kind='kani', crate='kani/U22', timeout_s=1500, mem_gb=16, jobs=1,
+    title='BOUNDED (3 columns, 1-character names): inner_locustdb::subpartition + lookup-map construction (slice) + PartitionMetadata::subpartition_key',
+    harnesses=[dict(name='proofs::every_column_is_found_in_its_file', bounded='3 columns, names from {A,B,a,b,_,0}, sizes/limit u8, unwind 6', unwind=6, clause='every column lands in exactly one file; subpartition_key(name) is the key of that file; a name above all routes to None', fn='subpartition / subpartition_key'),
+               dict(name='proofs::vx_canary', expect_fail=True)],
+    assumptions=['R10: Column reduced to (name, size); Options reduced to max_partition_size_bytes', 'A-sha: sha2 replaced by a stand-in crate (key formatting of unsafe names only)'],
+    not_covered=['sanitize_table_name', 'partition_filename formatting', 'lazy load / empty-handle protocol (concurrent)'])
+
+UNITS['U23k'] = dict(
+    kind='kani', crate='kani/U23', timeout_s=600,
+    title='BOUNDED (strings <= 2 ASCII bytes): column_buffer.rs is_lowercase_hex / is_uppercase_hex',
+    harnesses=[dict(name='proofs::hex_predicates', bounded='strings <= 2 ASCII bytes, unwind 5', unwind=5, clause='true exactly for even-length strings over the lower- / upper-case hex alphabet', fn='is_lowercase_hex / is_uppercase_hex'),
+               dict(name='proofs::vx_canary', expect_fail=True)],
+    assumptions=[], not_covered=['hex packing itself (hex crate, A-hex)', 'non-ASCII strings'])
+
 PROPS = {
     'C14': dict(level='proof', units=['U14v', 'U14b'],
                 level_text='Verus proof that the envelope check accepts a file iff it is intact (for all byte strings: truncated, extended, flipped version / length / payload under A-sha), and that store writes exactly the envelope',
@@ -353,7 +368,7 @@ PROPS = {
                 level_note='planner choice of checked vs unchecked node is not covered',
                 technique='contract-based deductive verification (Kani complete harnesses) of the real operator file',
                 assumptions=[], not_covered=[]),
-    'C01': dict(level='proof', units=['U01', 'U02', 'U03', 'U04k', 'U04v'],
+    'C01': dict(level='proof', units=['U01', 'U02', 'U03', 'U04k', 'U04v', 'U23k'], thorough_units=['U02w'],
                 level_text='Verus proofs (all inputs, all iterations) of contracts on the real kernels extracted from /repo each run',
                 level_note='kernel contracts are proved; planner/executor glue, pco/lz4, CSV loader are named as unverified in evidence',
                 technique='contract-based deductive verification (Verus) of mechanically extracted functions',
